@@ -397,6 +397,50 @@ def link_fields(chk, facts):
         chk.ob(rule, ev.split("::")[-1], ok, "%s interprets p.condition() under p.env() of the same policy: %s" % (ev.split("::")[-1], ok), where=g.where(), fn=g.name)
 
 
+def views(chk, facts):
+    """Authorization considers exactly the policies of the set: policies() is the whole `links` map (no filter), lookups read the
+    map they are named after, is_empty looks at both maps, and the authorizer iterates policies()."""
+    rule = "C08.VIEW"
+    PS = "cedar_policy_core::ast::policy_set::PolicySet"
+    FILTERS = ("filter", "filter_map", "take", "skip", "take_while", "skip_while", "step_by")
+
+    def reads(g):
+        out = set()
+        for _, s_ in g.stmts():
+            if s_[0] == "a":
+                for p_ in shape._rv_places(s_[2]):
+                    for e in p_[1:]:
+                        if isinstance(e, list) and e[0] == "f" and e[3].endswith("policy_set::PolicySet"):
+                            out.add(e[2])
+        return out
+    spec = [("policies", {"links"}, "values", True), ("into_policies", {"links"}, "into_iter", True), ("all_templates", {"templates"}, "values", True),
+            ("get", {"links"}, "get", True), ("get_template", {"templates"}, "get", True), ("get_template_arc", {"templates"}, "get", True),
+            ("is_empty", {"links", "templates"}, "is_empty", True)]
+    for meth, fields, via, nofilter in spec:
+        g = get_fn(chk, facts, rule, PS + "::" + meth)
+        if g is None:
+            continue
+        cs = [callee(t).split("::")[-1] for _, t in g.calls()]
+        fl = [c for c in cs if c in FILTERS]
+        got = reads(g)
+        ok = got == fields and via in cs and not fl
+        chk.ob(rule, meth, ok, "PolicySet::%s reads %s through %s%s (required: %s, unfiltered)" % (meth, sorted(got), via if via in cs else cs, (" with " + str(fl)) if fl else "", sorted(fields)),
+               where=g.where(), fn=g.name, key="%s:%s" % (rule, meth))
+    # the authorizer evaluates policies()
+    a = facts.fn("cedar_policy_core::authorizer::Authorizer::is_authorized_core_internal") or facts.fn("cedar_policy_core::authorizer::Authorizer::is_authorized_core")
+    if a is None:
+        for n in facts.fns.index:
+            if n.startswith("cedar_policy_core::authorizer::Authorizer::") and "closure" not in n:
+                g = facts.fns[n]
+                if any(callee(t) == PS + "::policies" for _, t in g.calls()):
+                    a = g
+    if a is None:
+        chk.lost(rule, "the authorizer's loop over PolicySet::policies")
+    else:
+        uses = sorted({callee(t).split("::")[-1] for _, t in a.calls() if callee(t).startswith(PS + "::")})
+        chk.ob(rule, "authorizer", uses == ["policies"], "%s reads the policy set through %s (required: policies() only)" % (short(a.name), uses), where=a.where(), fn=a.name)
+
+
 def run(chk, facts, tier):
     facts.load_crate("cedar_policy_core.lib")
     facts.load_crate("cedar_policy.lib")
@@ -406,7 +450,8 @@ def run(chk, facts, tier):
         "writes in link/add_static/add_template are guarded by tests on both id maps; (PAIR.index) success paths write the primary maps together with the link index / the API "
         "shadow maps; (BINDING) check_binding's 4-row table is Ok iff no unbound and no extra slot, tests both directions, and Template::link constructs a policy only after it; "
         "(EQ) PartialEq of template/policy types compares every field but source locations (merge's collision detection relies on it); (LINK.fields) effect, annotations and "
-        "condition of a link are read from its template and evaluated under its own slot environment. Declines equivalence with the substituted static policy (C02) and multi-operation histories.")
+        "condition of a link are read from its template and evaluated under its own slot environment; (VIEW) policies() is the whole link map, lookups read the map they are named after "
+        "and the authorizer reads the set through policies() only. Declines equivalence with the substituted static policy (C02) and multi-operation histories.")
     chk.assumptions = ["std / linked-hash-map collection mutators are recognised by name (insert, remove, push, ...)", "MIR at mir-opt-level=0 reflects source control flow"]
     atomic(chk, facts)
     id_guards(chk, facts)
@@ -414,3 +459,4 @@ def run(chk, facts, tier):
     binding(chk, facts)
     equality(chk, facts)
     link_fields(chk, facts)
+    views(chk, facts)
